@@ -21,7 +21,8 @@ RULE = ('object graphs built from: scalars (None, bool, int incl. > 2^64, float 
         'graph goes through HDF5 (format selection None/blocks/compact/flat), hdf5_io.save/load with .h5/.pkl/.pklz files, pickle '
         'and deepcopy; the result is compared by a generic structural comparator (types, dtypes, values, leg structure), its own '
         'test_sanity, class-specific dense observables, and a sharing monitor (partition of container slots by object identity). '
-        'non-trivial = graph with a tenpy object or sharing; distinct = (root kinds, route)')
+        'non-trivial = graph with a tenpy object or sharing; distinct = (root kinds, route)'
+        ' Also: saves at the root path of the file, DipolarChargeInfo, segment lattices and models, objects saved next to their own parts.')
 ASSUMPTIONS = ['h5py/pickle themselves are trusted', 'documented exception: tuples inside reference cycles come back as lists',
                "format 'flat' is documented lossy: compared through the charge of every index, not the block structure"]
 ANCHORS = {'tenpy/tools/hdf5_io.py': ['*'], 'tenpy/linalg/charges.py': ['save_hdf5', 'from_hdf5', '__getstate__', '__setstate__'],
